@@ -1,5 +1,5 @@
 """C17 — reuse never leaks earlier data into a result (layer level + connection level)."""
-from . import core, layers as L
+from . import coqreplay, core, layers as L
 
 RULE = ("layer level: for every decodable layer, every ordered pair (earlier, later) from a pool of accepted "
         "encodings with differing optional tails / branches / lengths: decode earlier then later into one value; "
@@ -46,6 +46,7 @@ def run(ch, build):
     go = core.harness(cmds)
     fresh = core.harness(fresh_cmds)
     model = core.oracle(cmds)
+    coqreplay.cross_check(ch, cmds, model, 300 if ch.quick() else 3000, "C17")
     per_layer = {}
     for i, (name, a, b) in enumerate(meta):
         base = name.split(":")[0]
